@@ -130,6 +130,9 @@ def gen_hist_spec(rng, cls, opt=False):
         elif r < p_apx:
             c['impl'] = rng.choice(['fd', 'fd', 'cs'])
             c['form'] = rng.choice(['forward', 'forward', 'central'])
+            # two approximation schemes in one component (fd wrt u, cs wrt the rest): which of them has something to
+            # do depends on the relevance of the request
+            c['mix'] = c['impl'] == 'fd' and bool(c.get('v') or c.get('q')) and rng.random() < 0.7
         elif r < p_apx + 0.12:
             c['impl'] = 'mf'
         elif r < p_apx + 0.22:
@@ -192,6 +195,16 @@ def gen_hist_spec(rng, cls, opt=False):
     elif cls == 'seq' and cyc_at is None and rng.random() < 0.5:
         root['approx'] = {'method': rng.choice(['fd', 'cs']), 'form': rng.choice(['forward', 'central'])}
         root['coloring'] = rng.random() < 0.5
+    # an implicit component below an approximated group is left out: with a non-run-once linear solver above the
+    # group its own dR/dy = +1 ends up on the diagonal of the group's jacobian where -1 is assumed (wrong sign of the
+    # totals with relevance on AND off - not this property's matter; scratch/side/c24s_implicit_in_approx_group_sign.py)
+    apx_names = set()
+    for g in [root] + groups:
+        if g.get('approx'):
+            apx_names |= set(members(g))
+    for c in comps:
+        if c['name'] in apx_names and c['impl'] in ('imp', 'impmf'):
+            c['impl'] = 'exp'
     # ---------------- solvers ---------------------------------------------------------------------------
     family = rng.choice(['direct', 'iterative', 'iterative'])
     sub_choices = ['runonce', 'runonce', 'direct'] if family == 'direct' else ['runonce', 'runonce', 'lnbgs', 'krylov']
@@ -510,7 +523,17 @@ def hist_eval(spec, point, total_wrt=None, exact_all=False):
             else:
                 c = byname[ch]
                 if c['impl'] == 'fd' and not exact_only:
-                    fd_unit([ch], c['form'], [('slot', (ch, s), v) for s, v in comp_inputs(c)])
+                    ins = comp_inputs(c)
+                    if c.get('mix'):
+                        # partials wrt u by fd, wrt the other inputs by cs (= exact)
+                        fd_unit([ch], c['form'], [('slot', (ch, s), v) for s, v in ins if s == 'u'])
+                        P = _comp_partials(c, vals, None)
+                        for s, v in ins:
+                            if s != 'u':
+                                jac[c['out']] = jac[c['out']] + P[s] @ jac[v]
+                                noise[c['out']] += float(np.max(np.sum(np.abs(P[s]), axis=1))) * noise[v]
+                    else:
+                        fd_unit([ch], c['form'], [('slot', (ch, s), v) for s, v in ins])
                 else:
                     exact(c)
     ra = spec['root'].get('approx')
@@ -592,11 +615,11 @@ def _classes():
                 self.declare_partials(o, c['u'], rows=ar, cols=ar, val=2.0)
                 return
             if c['impl'] in ('fd', 'cs'):
-                kw = {'method': c['impl']}
-                if c['impl'] == 'fd':
-                    kw.update(step=FD_STEP, form=c['form'], step_calc='abs')
                 for s, v in comp_inputs(c):
-                    self.declare_partials(o, v, **kw)
+                    if c['impl'] == 'fd' and (s == 'u' or not c.get('mix')):
+                        self.declare_partials(o, v, method='fd', step=FD_STEP, form=c['form'], step_calc='abs')
+                    else:       # `mix`: two approximation schemes in one component
+                        self.declare_partials(o, v, method='cs')
                 return
             if c['impl'] == 'mf':
                 for s, v in comp_inputs(c):
@@ -795,12 +818,19 @@ def _ln_solver(om, t):
 
 
 def _nl_solver(om, t):
+    # atol = 1e-10: a run pruned by relevance (finite-difference runs of check_totals / approximated totals) cannot
+    # reduce the residuals of the systems it skips; they stay at the level the previous full run converged to
+    # (<= 1e-10).  With a smaller atol the pruned run would report non-convergence at round-off level.
     if t == 'runonce':
         return om.NonlinearRunOnce()
     if t == 'nlbgs':
-        return om.NonlinearBlockGS(iprint=-1, maxiter=100, atol=1e-12, rtol=1e-12, err_on_non_converge=False)
+        # use_apply_nonlinear: the residual vector then holds the true residuals (by default NLBGS leaves the last
+        # change of the outputs there, which a component that approximates its partials by fd takes as baseline:
+        # error = change / step in both twins - not this property's matter)
+        return om.NonlinearBlockGS(iprint=-1, maxiter=100, atol=1e-10, rtol=1e-12, err_on_non_converge=False,
+                                   use_apply_nonlinear=True)
     if t == 'newton':
-        return om.NewtonSolver(iprint=-1, maxiter=30, atol=1e-12, rtol=1e-12, solve_subsystems=False,
+        return om.NewtonSolver(iprint=-1, maxiter=30, atol=1e-10, rtol=1e-12, solve_subsystems=False,
                                err_on_non_converge=False)
     raise ValueError(t)
 
@@ -989,7 +1019,7 @@ def gen_history(rng, spec):
         reqs.append(_driver_request(spec, 'problem'))
         if rng.random() < 0.6:
             reqs.append(_driver_request(spec, 'driver'))
-        if rng.random() < 0.3:
+        if rng.random() < 0.3 and not spec['root'].get('approx'):
             reqs.append(_driver_request(spec, 'check'))
         rng.shuffle(reqs)
         reqs.append(dict(reqs[0]) if rng.random() < 0.5 else dict(a))
@@ -1010,6 +1040,9 @@ def gen_history(rng, spec):
     cands = []          # (site, component or group)
     for c in spec['comps']:
         n = c['name']
+        if spec['pre_opt_post'] and (c['kind'] == 'par' or c['dead']) and n not in apx:
+            # a component outside the optimisation loop (pre: fed by a non-design source only; post: dead end)
+            cands.append(('compute-prepost', n))
         if n not in live or c['kind'] == 'par':
             continue
         if n in apx:
@@ -1038,20 +1071,23 @@ def gen_history(rng, spec):
     cat = {'seed': [x for x in cands if x[0] in ('ln-maxiter', 'jacvec', 'solve_linear', 'apply_linear')],
            'lin': [x for x in cands if x[0] in ('linearize', 'singular')],
            'nl': [x for x in cands if x[0] == 'compute'],
+           'pp': [x for x in cands if x[0] == 'compute-prepost'],
            'apx': [x for x in cands if x[0] == 'compute-in-approx']}
     order = rng.choice([['seed', 'lin', 'nl', 'apx']] * 11 + [['lin', 'seed', 'nl', 'apx']] * 4 +
                        [['nl', 'seed', 'lin', 'apx']] * 3 + [['apx', 'lin', 'seed', 'nl']] * 2)
     pick = [cat[k] for k in order if cat[k]][0]
+    if cat['pp'] and rng.random() < 0.35:
+        pick = cat['pp']
     site, cname = rng.choice(pick)
     c = byname[cname]
     fault = {'site': site, 'comp': cname, 'n': rng.choice([1, 1, 2]), 'exc': rng.choice(['analysis'] * 3 + ['runtime'])}
     if site == 'ln-maxiter':
         fault['group'] = spec['cyc_group'] or ''
-    if site == 'compute':
+    if site in ('compute', 'compute-prepost'):
         api = 'run_driver'
     else:
         api = rng.choice(['problem'] * 3 + ['explicit'] * 2 + ['driver'] * 2 + ['check', 'run_driver', 'run_driver'])
-    if site == 'compute-in-approx':
+    if site in ('compute-in-approx', 'compute-prepost'):
         fault['site'] = 'compute'
     # warm-up: the fault does not hit the first derivative computation of the problem
     if rng.random() < 0.5:
